@@ -68,9 +68,14 @@ Proof. vm_compute. repeat split. Qed.
 Lemma wfK : wf_consts K.
 Proof. vm_compute. repeat split; discriminate. Qed.
 
+Definition eff_w (w : Z) := eff (d_disable doc_width) (d_disable_means doc_width) w.
+Definition eff_s (s : Z) := eff (d_disable doc_scale) (d_disable_means doc_scale) s.
+
 (* ---------------------------------------------------------------- accepted iff documented (ALL integers, any globals) *)
+(* accepted exactly when each value is in its documented range and the width is not smaller than the scale
+   (the joint condition is what DECIMAL(w,s) needs; docs/environment_variables.rst does not spell it out) *)
 Theorem C30_config_accept_iff_documented : forall (w s : Z) (g : globals),
-  accepted (engine_config (Some w) (Some s) g) = true <-> in_doc doc_width w /\ in_doc doc_scale s.
+  accepted (engine_config (Some w) (Some s) g) = true <-> in_doc doc_width w /\ in_doc doc_scale s /\ eff_s s <= eff_w w.
 Proof. intros. exact (spec_accept_iff K (Some w) (Some s) g wfK). Qed.
 
 Theorem C30_config_unset_means_documented_default : forall (ew es : option Z) (g : globals),
@@ -85,9 +90,37 @@ Theorem C30_out_of_range_rejected_with_config_error : forall (w s : Z) (g : glob
 Proof.
   intros w s g H. pose proof (C30_config_accept_iff_documented w s g) as A.
   unfold run_config. destruct (engine_config (Some w) (Some s) g) as [g'|v bad g'] eqn:E; simpl in *.
-  - exfalso. apply H. apply A. reflexivity.
+  - exfalso. apply H. destruct (proj1 A eq_refl) as (? & ? & _). auto.
   - eauto.
 Qed.
+
+(* whatever the settings and the globals, run() never reaches DuckDB with an ill-formed DECIMAL type *)
+Theorem C30_no_raw_duckdb_error : forall ew es g, fst (run_config engine_config ew es g) <> RawBinder.
+Proof.
+  intros ew es g H. apply run_config_raw_iff in H. destruct H as (g' & A & T).
+  rewrite (spec_accepted_type_ok K ew es g g' wfK) in T; try discriminate; try exact A; vm_compute; discriminate.
+Qed.
+
+(* a width inside its range but below the effective scale is rejected with the configuration error naming the width *)
+Theorem C30_width_below_scale_rejected : forall (w s : Z) (g : globals),
+  in_doc doc_width w -> in_doc doc_scale s -> eff_w w < eff_s s ->
+  fst (run_config engine_config (Some w) (Some s) g) = CfgRejected VarWidth.
+Proof.
+  intros w s g Hw Hs Hlt. pose proof (C30_config_accept_iff_documented w s g) as A.
+  pose proof (eff_range (c_min_w K) (c_max_w K) (c_disable K) w (proj1 wfK)) as Rw.
+  pose proof (eff_range (c_min_s K) (c_max_s K) (c_disable K) s (proj1 (proj2 wfK))) as Rs.
+  unfold run_config, engine_config, set_decimal_config_spec in *. simpl from_env in *.
+  change (eff (c_disable K) (c_max_w K) w) with (eff_w w) in *. change (eff (c_disable K) (c_max_s K) s) with (eff_s s) in *.
+  apply Rw in Hw. apply Rs in Hs.
+  destruct ((eff_s s <? c_min_s K) || (eff_s s >? c_max_s K)) eqn:E1; [exfalso; lia|].
+  destruct ((eff_w w <? c_min_w K) || (eff_w w >? c_max_w K)) eqn:E2; [reflexivity|].
+  rewrite (proj2 (Z.ltb_lt _ _) Hlt). reflexivity.
+Qed.
+
+Example C30_width_below_scale_example :
+  in_doc doc_width 6 /\ fst (run_config engine_config (Some 6) None D0) = CfgRejected VarWidth /\
+  fst (run_config engine_config (Some 10) None D0) = CfgOk 10 10.
+Proof. split; [right; vm_compute; split; discriminate|]. split; reflexivity. Qed.
 
 (* ---------------------------------------------------------------- the outcome does not depend on earlier runs *)
 Theorem C30_history_independent : forall ew es g1 g2,
@@ -105,60 +138,9 @@ Qed.
 Theorem C30_state_after_call : forall ew es g,
   state_after (engine_config ew es g) =
   if accepted (engine_config ew es g)
-  then mkG (eff (d_disable doc_width) (d_disable_means doc_width) (from_env ew (d_default doc_width)))
-           (eff (d_disable doc_scale) (d_disable_means doc_scale) (from_env es (d_default doc_scale)))
+  then mkG (eff_w (from_env ew (d_default doc_width))) (eff_s (from_env es (d_default doc_scale)))
   else g.
 Proof. intros. exact (spec_state K ew es g). Qed.
-
-(* ---------------------------------------------------------------- what still escapes as a raw DuckDB error *)
-Definition eff_w (w : Z) := eff (d_disable doc_width) (d_disable_means doc_width) w.
-Definition eff_s (s : Z) := eff (d_disable doc_scale) (d_disable_means doc_scale) s.
-
-(* exactly the documented settings whose width is smaller than the scale: DuckDB needs s <= w in DECIMAL(w,s) *)
-Theorem C30_raw_error_iff : forall (w s : Z) (g : globals),
-  fst (run_config engine_config (Some w) (Some s) g) = RawBinder <->
-  in_doc doc_width w /\ in_doc doc_scale s /\ eff_w w < eff_s s.
-Proof.
-  intros w s g. rewrite run_config_raw_iff.
-  pose proof (C30_config_accept_iff_documented w s g) as A.
-  pose proof (C30_state_after_call (Some w) (Some s) g) as ST. simpl from_env in ST. fold (eff_w w) (eff_s s) in ST.
-  assert (Bw : in_doc doc_width w -> 6 <= eff_w w <= 38).
-  { unfold eff_w, eff, in_doc. change (d_disable doc_width) with (-1). change (d_lo doc_width) with 6. change (d_hi doc_width) with 38.
-    change (d_disable_means doc_width) with 38. destruct (w =? -1) eqn:Q; [lia|]. apply Z.eqb_neq in Q. lia. }
-  assert (Bs : in_doc doc_scale s -> 6 <= eff_s s).
-  { unfold eff_s, eff, in_doc. change (d_disable doc_scale) with (-1). change (d_lo doc_scale) with 6.
-    change (d_disable_means doc_scale) with 15. destruct (s =? -1) eqn:Q; [lia|]. apply Z.eqb_neq in Q. lia. }
-  destruct (engine_config (Some w) (Some s) g) as [g'|v bad g'] eqn:E; simpl in A, ST.
-  - subst g'. destruct (proj1 A eq_refl) as (Aw & As). specialize (Bw Aw). specialize (Bs As).
-    assert (R : decimal_type_ok (eff_w w) (eff_s s) = false <-> eff_w w < eff_s s).
-    { destruct (decimal_type_ok (eff_w w) (eff_s s)) eqn:T.
-      - apply decimal_type_ok_iff in T. split; [discriminate | lia].
-      - split; [intros _|reflexivity].
-        assert (N : ~ (1 <= eff_w w <= duckdb_max_width /\ 0 <= eff_s s <= eff_w w)) by (rewrite <- decimal_type_ok_iff, T; discriminate).
-        unfold duckdb_max_width in *. lia. }
-    split.
-    + intros (g' & Hg & T). injection Hg as <-. simpl in T. apply R in T. tauto.
-    + intros (_ & _ & T). eexists. split; [reflexivity|]. simpl. apply R. exact T.
-  - split; [intros (? & ? & _); discriminate|]. intros (Aw & As & _).
-    assert (false = true) by (apply A; auto). discriminate.
-Qed.
-
-(* so the documented ranges themselves allow settings DuckDB cannot realise (still open after the repair) *)
-Theorem C30_documented_ranges_allow_ill_formed_type : exists (w s : Z),
-  in_doc doc_width w /\ in_doc doc_scale s /\ forall g, fst (run_config engine_config (Some w) (Some s) g) = RawBinder.
-Proof. exists 6, 10. split; [right; vm_compute; split; discriminate|]. split; [right; vm_compute; split; discriminate|]. reflexivity. Qed.
-
-Theorem C30_default_scale_excludes_small_widths : forall (w : Z) (g : globals),
-  fst (run_config engine_config (Some w) None g) = RawBinder <-> 6 <= w < 10.
-Proof.
-  intros w g.
-  assert (E : run_config engine_config (Some w) None g = run_config engine_config (Some w) (Some 10) g) by reflexivity.
-  rewrite E. rewrite C30_raw_error_iff.
-  unfold in_doc, eff_w, eff_s, eff. change (d_disable doc_width) with (-1). change (d_lo doc_width) with 6. change (d_hi doc_width) with 38.
-  change (d_disable_means doc_width) with 38. change (d_disable doc_scale) with (-1). change (d_lo doc_scale) with 6.
-  change (d_hi doc_scale) with 15. change (d_disable_means doc_scale) with 15. simpl (10 =? -1).
-  destruct (w =? -1) eqn:Q; [apply Z.eqb_eq in Q | apply Z.eqb_neq in Q]; lia.
-Qed.
 
 (* ---------------------------------------------------------------- regression witnesses: the code before the repair *)
 (* it accepted any width >= 6 (witness 45), which then escaped as a raw BinderException *)
@@ -170,6 +152,11 @@ Proof.
   split; [reflexivity|]. split; [|split; reflexivity].
   intros [E|[_ E]]; vm_compute in E; [discriminate | apply E; reflexivity].
 Qed.
+
+(* and it let a width below the scale through to DuckDB *)
+Theorem C30_prefix_width_below_scale_was_raw :
+  fst (run_config prefix_config (Some 6) None D0) = RawBinder /\ fst (run_config engine_config (Some 6) None D0) = CfgRejected VarWidth.
+Proof. split; reflexivity. Qed.
 
 Theorem C30_prefix_accept_iff : forall (w s : Z) (g : globals),
   accepted (prefix_config (Some w) (Some s) g) = true <->
@@ -268,12 +255,12 @@ Print Assumptions C30_doc_ranges_are_code_constants.
 Print Assumptions C30_config_accept_iff_documented.
 Print Assumptions C30_config_unset_means_documented_default.
 Print Assumptions C30_out_of_range_rejected_with_config_error.
+Print Assumptions C30_no_raw_duckdb_error.
+Print Assumptions C30_width_below_scale_rejected.
 Print Assumptions C30_history_independent.
 Print Assumptions C30_state_after_call.
-Print Assumptions C30_raw_error_iff.
-Print Assumptions C30_documented_ranges_allow_ill_formed_type.
-Print Assumptions C30_default_scale_excludes_small_widths.
 Print Assumptions C30_prefix_accepted_width_45.
+Print Assumptions C30_prefix_width_below_scale_was_raw.
 Print Assumptions C30_prefix_accept_iff.
 Print Assumptions C30_prefix_sticky.
 Print Assumptions C30_load_rounds_to_scale.
